@@ -39,7 +39,7 @@ type ptrScalarLast struct {
 
 // Go kinds beyond the sized integers of the signature universe: the platform-sized int
 // and uint (64 bits on the wire), alone, behind other members and inside containers
-// (seed C08-17 dropped them from the decoder's kind switch: nothing was read, success).
+// (seed C08-16 dropped them from the decoder's kind switch: nothing was read, success).
 type kindRec struct {
 	A int32
 	B int
@@ -158,7 +158,7 @@ func familyPointers() {
 
 // familyOverCap: maps and lists whose announced size lies around the documented cap of
 // 4096 entries, decoded into a nil destination. A decoder may refuse a size above the cap;
-// it may not read part of the entries and report success (seed C08-18 clamped the size: a
+// it may not read part of the entries and report success (seed C08-17 clamped the size: a
 // stream cut after the 4096th entry was accepted).
 func familyOverCap() {
 	fam := run.Family("over-cap-containers")
